@@ -645,5 +645,6 @@ pub fn parts() -> Vec<Box<dyn PartDyn>> {
         shrink_budget: 200,
         confirm_runs: 2,
             fuzz: None,
+            watchdog_s: 60,
     })]
 }
